@@ -43,7 +43,19 @@ def _is_failure_stmt(s, unit, consts=None):
     if s.get('kind') == 'CXXThrowExpr':
         t = _thrown_type(s)
         return t is not None and t.endswith('expectation_failed')
+    if s.get('kind') == 'CallExpr' and _depth[0] < 3:
+        # a helper every path of which raises a failure (summary, one function at a time)
+        d = callee_decl(s, unit)
+        if d is not None and body_of(d) is not None and not _is_expect_generic(s, unit):
+            _depth[0] += 1
+            try:
+                return _ends_in_failure(body_of(d), unit)
+            finally:
+                _depth[0] -= 1
     return False
+
+
+_depth = [0]
 
 
 def _may_raise_failure(n, unit):
@@ -404,9 +416,11 @@ def run(ctx):
         if body_of(f) is None:
             continue
         check_no_goto(f)
-        check_raises_fn(ctx, w, f, 'expect_raises_fn<%s>' % targs[0])
+        with ctx.section('C19-R3', f):
+            check_raises_fn(ctx, w, f, 'expect_raises_fn<%s>' % targs[0])
     spec = [f for f in u.func('phosg::expect_raises_fn') if [c['type']['qualType'] for c in kids(f) if c.get('kind') == 'TemplateArgument'] == ['std::exception']]
     ctx.require(len(spec) == 1, 'std::exception specialisation of expect_raises_fn not found in UnitTest.cc')
     check_no_goto(spec[0])
-    check_raises_fn(ctx, u, spec[0], 'expect_raises_fn<std::exception>')
+    with ctx.section('C19-R3', spec[0]):
+        check_raises_fn(ctx, u, spec[0], 'expect_raises_fn<std::exception>')
     ctx.note('Instantiations analysed: primary template for 6 exception types (witness/c19.cc) and the std::exception specialisation.')
